@@ -172,8 +172,11 @@ def rule_alloc_bounded(ctx):
                 const += 1
                 continue
             if not _wire_sized(S, f):
-                local += 1
-                continue
+                # the size may arrive through the return place of a spliced helper (`let n = read_len(..).await?`)
+                if not (any(x[0] == "var" for x in subterms(S)) and any(_wire_sized(v, f) for v in common.value_terms(f, T, S)[1:])):
+                    local += 1
+                    continue
+                # falls through: the bound is looked for on the local itself
             wire += 1
             where = f.qname.split("::", 1)[-1][-60:]
             if base[0] == "call" and base[1] in ("std::cmp::min", "std::cmp::Ord::min"):
